@@ -131,17 +131,59 @@ def aniso_potential(points, comps, center=(0.0, 0.0, 0.0)):
 
 # ------------------------------------------------------------------ shipped core model (own reader)
 _params = None
-SYMBOL = {1: "H", 6: "C", 7: "N", 8: "O", 17: "Cl"}
+# own periodic table (symbols of Z = 1..54); the SUPPORTED elements are whatever keys the shipped JSON has
+_PT = ("H He Li Be B C N O F Ne Na Mg Al Si P S Cl Ar K Ca Sc Ti V Cr Mn Fe Co Ni Cu Zn Ga Ge As Se Br Kr "
+       "Rb Sr Y Zr Nb Mo Tc Ru Rh Pd Ag Cd In Sn Sb Te I Xe").split()
+_Z = {sym: i + 1 for i, sym in enumerate(_PT)}
 
 
-def core_params(atnum):
+def _load():
     global _params
     if _params is None:
         with open(os.path.join(core.GRIDDIR, "data", "atomic_gauss_params.json")) as fh:
             _params = json.load(fh)
-    d = _params[SYMBOL[int(atnum)]]
+    return _params
+
+
+def elements():
+    """Atomic numbers of every element the shipped core-model file has, ascending (unknown symbol -> MonitorError)."""
+    out = []
+    for sym in _load():
+        if sym not in _Z:
+            raise core.MonitorError(f"core-model file has an element the monitor's table does not know: {sym}")
+        out.append(_Z[sym])
+    return sorted(out)
+
+
+class _Symbols(dict):
+    """Z -> symbol for the supported elements (kept under the old name SYMBOL)."""
+
+    def _fill(self):
+        if not self:
+            for z in elements():
+                self[z] = _PT[z - 1]
+        return self
+
+    def __iter__(self):
+        return iter(dict(self._fill()))
+
+    def __getitem__(self, z):
+        self._fill()
+        return dict.__getitem__(self, z)
+
+
+SYMBOL = _Symbols()
+
+
+def core_params(atnum):
+    d = _load()[SYMBOL[int(atnum)]]
     extra = [k for k in d if k not in ("coeffs_s", "alphas_s")]
     return np.array(d["coeffs_s"], dtype=float), np.array(d["alphas_s"], dtype=float), extra
+
+
+def core_density_at_nucleus(atnum):
+    c, a, _ = core_params(atnum)
+    return float(np.sum(c * (a / np.pi) ** 1.5))
 
 
 def core_density(points, atnums, atcoords):
